@@ -25,7 +25,9 @@ def drive(tier):
         for comp in (True, False):
             key = CBitcoinSecret.from_secret_bytes(sec, comp)
             addr = P2PKHBitcoinAddress.from_pubkey(key.pub)
-            for mi, m in enumerate(msgs if tier == "thorough" else [msgs[(ki + mi0) % len(msgs)] for mi0 in (0, 3, 9 + ki % 5)]):
+            # message lengths on both sides of every length-prefix form (1, 3 and 5 bytes), for the first key (all keys in thorough)
+            long_msgs = ["q" * 4095, "r" * 4096, "s" * 65535, "t" * 65536, "u" * 20000 + "\u00e9"] if (comp and (ki == 0 or tier == "thorough")) else []
+            for mi, m in enumerate((msgs if tier == "thorough" else [msgs[(ki + mi0) % len(msgs)] for mi0 in (0, 3, 9 + ki % 5)]) + long_msgs):
                 bm = BitcoinMessage(m)
                 kk, sig = call(SignMessage, key, bm)
                 if kk == "exc":
